@@ -138,6 +138,22 @@ def run(ctx):
                             bd = bounds[(rr[k], q, rr[k + 1], cap)]
                             okc = okc and all(zc[k * q + j] <= bd[j - 1] for j in range(1, q))
                         ctx.check(okc, 'tt_to_qtt:ranks', 'tt_to_qtt(e=%g, r=%d): bonds %s violate the contract (TT-ranks %s, q=%d)' % (e_, cap, zc, rr, q))
+    # the index maps for quantisation levels far above the tabulated ones (q up to 62: every index below 2^62 is an int64)
+    for q in (20, 31, 32, 40, 53, 54, 55, 60, 62):
+        for d_ in (1, 2, 3):
+            idxs = [[(1 << q) - 1] * d_, [0] * d_, [int(rng.integers(0, 1 << 62)) % (1 << q) for _ in range(d_)],
+                    [(1 << (q - 1)) + 1] * d_, [((1 << q) - 1) ^ 1] * d_]
+            I_ = np.array(idxs, dtype=np.int64)
+            keep_ = I_.copy()
+            B_ = np.asarray(teneva.ind_tt_to_qtt(I_, 1 << q))
+            bits_ref = np.array([[(v >> k_) & 1 for v in row for k_ in range(q)] for row in idxs])
+            ctx.case(key=('big-q', q, d_), nontrivial=q >= 54)
+            okq = B_.shape == (len(idxs), d_ * q) and np.array_equal(B_, bits_ref) and np.array_equal(I_, keep_)
+            back_ = np.asarray(teneva.ind_qtt_to_tt(bits_ref.copy(), q))
+            okq = okq and back_.shape == (len(idxs), d_) and np.array_equal(back_.astype(object), np.array(idxs, dtype=object))
+            one_ = np.asarray(teneva.ind_qtt_to_tt(bits_ref[0].copy(), q))
+            okq = okq and one_.shape == (d_,) and [int(x) for x in one_] == idxs[0]
+            ctx.check(okq, 'ind_maps:big-q', 'index maps at q = %d, d = %d are not the little-endian bit maps / not inverse to each other' % (q, d_))
     # non powers of two are rejected
     for n in (3, 5, 6, 12):
         raised = [False, False, False]
